@@ -2118,6 +2118,14 @@ func (c *Conn) handleChangeCipherSpecRecord(
 		return false
 	}
 
+	if prepared.header.Epoch != 0 {
+		// Renegotiation is not supported and record protection passes
+		// ChangeCipherSpec through unauthenticated: only the epoch 0 one is valid.
+		c.log.Debugf("discarded ChangeCipherSpec (epoch: %d)", prepared.header.Epoch)
+
+		return false
+	}
+
 	newRemoteEpoch := prepared.header.Epoch + 1
 	c.log.Tracef("%s: <- ChangeCipherSpec (epoch: %d)", srvCliStr(common.IsClient), newRemoteEpoch)
 	if common.RemoteEpoch()+1 != newRemoteEpoch {
